@@ -63,12 +63,13 @@ Definition poly_simplify (O : oracle) (self : list pterm) (context : option (lis
   let vs := polytope_vars new_self ctx in
   match vs with
   | [] =>
-      (* m = 0 *)
-      match ctx, new_self with
-      | _ :: _, _ => raise (Escape "AssertionError")       (* assert len(b_help) == 0 *)
-      | [], [] => ret []
-      | [], [t] => ret [row_to_term vs (term_to_row vs t)]
-      | [], _ => raise ValueErr                            (* linprog rejects the empty objective: ValueError *)
+      (* m = 0: no variable anywhere.  Context rows are constant inequalities 0 <= c: a false one makes the system
+         unsatisfiable (ValueError), the others are dropped (repo commit 12672f5; before it: AssertionError) *)
+      if existsb (fun t => qlt (tconst t) 0) ctx then raise ValueErr else
+      match new_self with
+      | [] => ret []
+      | [t] => ret [row_to_term vs (term_to_row vs t)]
+      | _ => raise ValueErr                                (* linprog rejects the empty objective: ValueError *)
       end
   | _ =>
       red <- reduce_polytope O vs (map (term_to_row vs) new_self) (map (term_to_row vs) ctx) ;;
